@@ -307,12 +307,14 @@ Inductive xop :=
 | XRemove (sid : N)
 | XLookup (r : role) (src : sspec) (ck : N) (a : answers)
 | XResume (src : sspec) (ck : N) (a : answers)
+| XDecode (r : role) (src : sspec) (ck : N) (a : answers)   (* Hub.decodePrivateSessionId / decodePublicSessionId *)
 | XDump.                                           (* read the decode caches *)
 Inductive xobs :=
 | WIds (priv pub : string)
 | WFailed
 | WNone
 | WFound (sid : N) | WNotFound
+| WData (d : cdata) | WNoData                      (* the hub's decoder returned that data / nil *)
 | WCaches (l : list (list (N * cdata))).           (* per cache, most recently used first: (chk of the key, data) *)
 
 Definition dump_eqb (a b : list (list (N * cdata))) : bool :=
@@ -334,12 +336,16 @@ Definition xobs_eqb (a b : xobs) : bool :=
   | WIds p q, WIds p' q' => beqb (bs p) (bs p') && beqb (bs q) (bs q')
   | WFailed, WFailed | WNone, WNone | WNotFound, WNotFound => true
   | WFound x, WFound y => N.eqb x y
+  | WData x, WData y => cdata_eqb x y
+  | WNoData, WNoData => true
   | WCaches x, WCaches y => dump_eqb x y
   | _, _ => false
   end.
 
-Definition xobs_of_hout (o : hout) : xobs :=
+Definition xobs_of_hout (o : hout cdata) : xobs :=
   match o with
+  | HData d => WData d
+  | HNoData => WNoData
   | HIds p q => WIds (string_of_list_ascii p) (string_of_list_ascii q)
   | HFailed => WFailed
   | HNone => WNone
@@ -370,6 +376,12 @@ Definition model_xop (k : kspec) (t : minted_tbl) (h : hub cdata) (o : xop) : hu
       | Some s => let '(h', v) := hub_step (oracles_of a) (ks_of k) h (HResume s) in
                   (h', Some (xobs_of_hout v), Some (chk s))
       end
+  | XDecode r src ck a =>
+      match resolve t src with
+      | None => (h, None, None)
+      | Some s => let '(h', v) := hub_step (oracles_of a) (ks_of k) h (HDecode r s) in
+                  (h', Some (xobs_of_hout v), Some (chk s))
+      end
   | XDump => (h, Some (WCaches (hub_dump h)), None)
   end.
 
@@ -380,8 +392,9 @@ Fixpoint judge_hub (id : N) (k : kspec) (i : nat) (t : minted_tbl) (h : hub cdat
       let '(h', mo, mck) := model_xop k t h o in
       let here :=
         (match o, mck with
-         | XLookup _ _ ck _, Some c | XResume _ ck _, Some c => if N.eqb ck c then [] else [(id, 4%N, N.of_nat i)]
-         | XLookup _ _ _ _, None | XResume _ _ _, None => [(id, 4%N, N.of_nat i)]
+         | XLookup _ _ ck _, Some c | XResume _ ck _, Some c | XDecode _ _ ck _, Some c =>
+             if N.eqb ck c then [] else [(id, 4%N, N.of_nat i)]
+         | XLookup _ _ _ _, None | XResume _ _ _, None | XDecode _ _ _ _, None => [(id, 4%N, N.of_nat i)]
          | _, _ => []
          end) ++
         (match mo with
@@ -402,7 +415,27 @@ Fixpoint judge_hub (id : N) (k : kspec) (i : nat) (t : minted_tbl) (h : hub cdat
    session that still exists; and then it is that session. *)
 Definition live_rec := (N * bytes * bytes)%type.     (* Sid, private id, public id *)
 
-Fixpoint P_hub_go (i : nat) (t : minted_tbl) (live : list live_rec) (tr : list (xop * xobs)) : option nat :=
+(* "a public id never decodes as a private (resume) id nor the reverse", "only strings
+   minted ... decode as session ids, and decoding returns exactly the data that was
+   encoded", for the hub's own decoders (decodePrivateSessionId / decodePublicSessionId, the
+   functions every lookup, the resume branch of hello and the recipient of a message go
+   through).  In a hub trace the registrations are the only mints (the generators apply the
+   decoders to handed-out ids, mutated or not, under either role, and to texts never minted):
+   the decoder of role r returns data d for string s  <->  s is, character for character, the
+   id of role r handed out by a registration of this trace (its session may be gone: the id
+   stays a minted id), and d is the data of that registration. *)
+Definition hand_rec := (role * bytes * cdata)%type.
+Definition hand_hit (r : role) (s : bytes) (e : hand_rec) : bool :=
+  let '(r', s', _) := e in role_eqb r r' && beqb s s'.
+Definition decode_ok (hs : list hand_rec) (r : role) (s : bytes) (ob : xobs) : bool :=
+  match ob with
+  | WData d => existsb (fun e => hand_hit r s e && cdata_eqb d (snd e)) hs
+  | WNoData => negb (existsb (hand_hit r s) hs)
+  | _ => false
+  end.
+
+Fixpoint P_hub_go (i : nat) (t : minted_tbl) (live : list live_rec) (hs : list hand_rec)
+                  (tr : list (xop * xobs)) : option nat :=
   match tr with
   | [] => None
   | (o, ob) :: rest =>
@@ -422,18 +455,24 @@ Fixpoint P_hub_go (i : nat) (t : minted_tbl) (live : list live_rec) (tr : list (
       | XRegister d _ _ _ _ _ =>
           match ob with
           | WIds p q => P_hub_go (S i) ((i, (Some (bs p), Some (bs q))) :: t)
-                                 ((fst d, bs p, bs q) :: filter (fun e => negb (N.eqb (fst (fst e)) (fst d))) live) rest
-          | WFailed => P_hub_go (S i) t live rest
+                                 ((fst d, bs p, bs q) :: filter (fun e => negb (N.eqb (fst (fst e)) (fst d))) live)
+                                 ((Private, bs p, d) :: (Public, bs q, d) :: hs) rest
+          | WFailed => P_hub_go (S i) t live hs rest
           | _ => Some i
           end
-      | XRemove sid => P_hub_go (S i) t (filter (fun e => negb (N.eqb (fst (fst e)) sid)) live) rest
-      | XLookup r src _ _ => if lookup_ok r src then P_hub_go (S i) t live rest else Some i
-      | XResume src _ _ => if lookup_ok Private src then P_hub_go (S i) t live rest else Some i
-      | XDump => P_hub_go (S i) t live rest
+      | XRemove sid => P_hub_go (S i) t (filter (fun e => negb (N.eqb (fst (fst e)) sid)) live) hs rest
+      | XLookup r src _ _ => if lookup_ok r src then P_hub_go (S i) t live hs rest else Some i
+      | XResume src _ _ => if lookup_ok Private src then P_hub_go (S i) t live hs rest else Some i
+      | XDecode r src _ _ =>
+          match resolve t src with
+          | Some s => if decode_ok hs r s ob then P_hub_go (S i) t live hs rest else Some i
+          | None => Some i
+          end
+      | XDump => P_hub_go (S i) t live hs rest
       end
   end.
 Definition P_C15_hub (tr : list (xop * xobs)) : bool :=
-  match P_hub_go 0 [] [] tr with None => true | Some _ => false end.
+  match P_hub_go 0 [] [] [] tr with None => true | Some _ => false end.
 
 (* ================================================================================= *)
 (*  cases                                                                            *)
@@ -458,7 +497,7 @@ Definition judge (c : case) : list (N * N * N) :=
        end)
   | CaseHub id k n size tr =>
       judge_hub id k 0 [] (hub_init n size) tr ++
-      (match P_hub_go 0 [] [] tr with None => [] | Some i => [(id, 2%N, N.of_nat i)] end)
+      (match P_hub_go 0 [] [] [] tr with None => [] | Some i => [(id, 2%N, N.of_nat i)] end)
   end.
 
 Definition judge_all (cs : list case) : list (N * N * N) := flat_map judge cs.
